@@ -215,11 +215,26 @@ def alphabet(w, initialised):
     return A
 
 
+def uninit_probe(res, size):
+    """A window that lost its state stays 'uninitialised' through persist / reload, however often."""
+    w = o.ReplayWindow(size, lambda: None)
+    for gen in range(3):
+        res.evaluations += 1
+        if w.is_initialized():
+            res.violate(Violation("uninitialised-window-became-initialised", "uninitialised after %d persist/reload cycles" % gen,
+                                  w.persist(), "oscore.py:ReplayWindow.persist", {"family": "uninit", "size": size, "cycles": gen}, key="uninit-persist"))
+            return
+        p = w.persist()
+        w = o.ReplayWindow(size, lambda: None)
+        w.initialize_from_persisted(p)
+
+
 def job(arg):
     kind, item, tier = arg
     res = Result()
     if kind == "window":
         size, init, depth = item
+        uninit_probe(res, size)
         window_bfs(res, size, init, depth)
         res.sample({"window_size": size, "init": list(init), "history": [0, size, 1, 3 * size]})
     else:
@@ -251,7 +266,9 @@ def run(tier, seed, jobs):
 
 def replay(case, scenario, seed):
     res = Result()
-    if case["family"] == "window":
+    if case["family"] == "uninit":
+        uninit_probe(res, case["size"])
+    elif case["family"] == "window":
         window_bfs(res, case["size"], tuple(case["init"]), len(case["hist"]) + 1)
     else:
         arrivals(res, case["window"], [tuple(a) for a in case["seq"]], case["initialised"])
